@@ -15,6 +15,8 @@
   access.rs   -> Evenio/Generated/AccessGen.lean      (`Access::{join, is_compatible}`, `ComponentAccess::{new_true, new_false, var,
                                                       or, matches_archetype, clear_access, collect_conflicts}`, same translator;
                                                       `Evenio/Proofs/AccessGen.lean`)
+  archetype.rs -> Evenio/Generated/ArchHandlersGen.lean (`Archetype::register_handler`, `Archetypes::{register_handler, remove_handler}`,
+                                                      same translator; `Evenio/Proofs/ArchHandlersGen.lean`)
   bit_set.rs  -> Evenio/Generated/BitSetGen.lean      (`BitSet::{new, clear, grow_to_block, is_disjoint, len, is_empty, insert, remove,
                                                       contains}`, `|=`, `^=`, `div_rem`, same translator; `Evenio/Proofs/BitSetGen.lean`)
   handler.rs  -> Evenio/Generated/HandlerConfigGen.lean (the nine setters of `HandlerConfig`, same translator;
@@ -705,6 +707,51 @@ def extract_bit_set():
                         "contains", "bitor_assign", "bitxor_assign"])
 
 
+def extract_arch_handlers():
+    """archetype.rs: `Archetype::register_handler`, `Archetypes::register_handler`, `Archetypes::remove_handler` over the world
+    model's records (`Arch`, `HInfo`, `Slab Arch`); what they call is taken as given (`Generated/Rs2LeanArch.lean`:
+    `matches_archetype` = `CA.matches`, `HandlerList::{insert, remove}` = the translated ones, `SparseMap`, `BTreeSet` as a
+    duplicate-free list, `refresh_archetype` = the refresh of every parameter's cache).  `Evenio/Proofs/ArchHandlersGen.lean`
+    ties them to `Arch.registerHandler` and the loops of `addHandler` / `removeHandler`."""
+    return run_rs2lean("src/archetype.rs",
+                       ["Archetype", "register_handler", "Archetypes::register_handler", "Archetypes::remove_handler",
+                        "--namespace", "Evenio.Gen.ArchHandlers",
+                        "--import", "Evenio.Generated.Rs2LeanPrelude", "--import", "Evenio.Generated.Rs2LeanArch",
+                        "--open", "Evenio.Rs2Lean",
+                        "--type", "Archetype=Evenio.Arch", "--type", "HandlerInfo=Evenio.HInfo",
+                        "--type", "ComponentAccess=Evenio.CA", "--type", "ComponentIdx=Nat",
+                        "--type", "HandlerInfoPtr=Evenio.Key", "--type", "HandlerPriority=Evenio.Priority",
+                        "--type", "EventId=Bool × Nat", "--type", "TargetedEventIdx=Nat", "--type", "GlobalEventIdx=Nat",
+                        "--type", "BTreeSet=List Evenio.Key", "--type", "HandlerList=Evenio.HandlerList Evenio.Key",
+                        "--type", "SparseMap=Evenio.SparseMap (Evenio.HandlerList Evenio.Key)",
+                        "--map", "SparseMap=sparseGet,sparseSet",
+                        "--field", "Archetype.refresh_listeners=refresh", "--field", "Archetype.event_listeners=listeners",
+                        "--enum", "EventId=Global(GlobalEventIdx)|Targeted(TargetedEventIdx)",
+                        "--variant", "EventId::Global=(false, $1)", "--variant", "EventId::Targeted=(true, $1)",
+                        "--prim", "HandlerInfo::archetype_filter(&self) -> &ComponentAccess=Evenio.HInfo.archFilter",
+                        "--prim", "HandlerInfo::targeted_event_component_access(&self) -> Option<&ComponentAccess>=hinfoTargetedAccess",
+                        "--prim", "HandlerInfo::received_event(&self) -> EventId=hinfoRecv",
+                        "--prim", "HandlerInfo::ptr(&self) -> HandlerInfoPtr=Evenio.HInfo.key",
+                        "--prim", "HandlerInfo::priority(&self) -> HandlerPriority=Evenio.HInfo.prio",
+                        "--prim", "HandlerInfo::component_access(&self) -> &ComponentAccess=Evenio.HInfo.compAccess",
+                        "--enum", "HandlerPriority=High|Medium|Low",
+                        "--prim", "HandlerInfo::handler_mut(&mut self) -> HandlerInfo=_",
+                        "--prim", "HandlerInfo::refresh_archetype(&mut self, &Archetype)=hinfoRefresh",
+                        "--prim", "ComponentAccess::matches_archetype(&self, impl FnMut(ComponentIdx) -> bool) -> bool=Evenio.CA.matches",
+                        "--prim", "Archetype::column_of(&self, ComponentIdx) -> Option<usize>=Evenio.Arch.colIdx",
+                        "--prim", "Archetype::entity_count(&self) -> u32=archEntityCount",
+                        "--prim", "TargetedEventIdx::index(self) -> usize=_",
+                        "--prim", "BTreeSet::insert(&mut self, _) -> bool=keySetInsert",
+                        "--prim", "BTreeSet::remove(&mut self, _) -> bool=keySetRemove",
+                        "--prim", "HandlerList::new() -> HandlerList=({} : Evenio.HandlerList Evenio.Key)",
+                        "--prim", "HandlerList::insert(&mut self, HandlerInfoPtr, HandlerPriority)=Evenio.Gen.HandlerList.insert",
+                        "--prim", "HandlerList::remove(&mut self, HandlerInfoPtr) -> bool=Evenio.Gen.HandlerList.remove",
+                        "--prim", "SparseMap::insert(&mut self, _, _) -> Option<HandlerList>=sparseInsert",
+                        "--struct", "Archetypes", "--type", "Slab=Evenio.Slab Evenio.Arch", "--map", "Slab=slabGet,slabSet",
+                        "--iter-mut", "Slab=slabMap,slabMapState", "--type", "HashMap=Unit"],
+                       ["register_handler", "Archetypes.register_handler", "Archetypes.remove_handler"])
+
+
 def main():
     status_path = None
     if "--status" in sys.argv:
@@ -716,7 +763,8 @@ def main():
                      ("SparseMapGen", extract_sparse_map), ("EntityGen", extract_entity),
                      ("HandlerConfigGen", extract_handler_config),
                      ("AccessGen", extract_access_funcs),
-                     ("BitSetGen", extract_bit_set)]:
+                     ("BitSetGen", extract_bit_set),
+                     ("ArchHandlersGen", extract_arch_handlers)]:
         target = os.path.join(OUT, name + ".lean")
         fallback = os.path.join(OUT, name + ".lean.fallback")
         old = open(target).read() if os.path.exists(target) else None
